@@ -465,6 +465,8 @@ func init() {
 			specs = append(specs, TrajSpecs(r.ID, sc, 60, 4, 61, step, 1, 256, []string{"limA+"}, or)...)
 		}
 		r.ExploreSpecs(specs)
+		// storages with zero roots (the universes above always keep their root containers)
+		r.RunTaskGroup("storages with no root at all: healthy, and after an unreferenced slab was added", "c20empty", c20EmptyArgs())
 	}})
 }
 
